@@ -106,7 +106,7 @@ func (impl Implementation) Dlahr2(n, k, nb int, a []float64, lda int, tau, t []f
 	}
 
 	// Quick return if possible.
-	if n == 1 {
+	if n == 1 || nb == 0 {
 		return
 	}
 
